@@ -26,7 +26,7 @@ def run(ctx):
     # (b)
     d = ctx.specdir()
     sizes = "{1, 10, 1000, 100000, 1000000}" if ctx.tier == "quick" else "{1, 2, 10, 99, 100, 101, 1000, 1001, 65536, 100000, 1000000, 16000000}"
-    cfg = 'CONSTANTS\n  Sizes = %s\n  Exps = {0, 10, 24, 31, 32, 40, 62, 63, 64}\n  OutFile = "shapes.ndjson"\nINIT Init\nNEXT Next\nINVARIANT Emit\nCHECK_DEADLOCK FALSE\n' % sizes
+    cfg = 'CONSTANTS\n  Sizes = %s\n  Exps = {0, 10, 24, 31, 32, 40, 62, 63, 64}\n  DepthOnly = FALSE\n  OutFile = "shapes.ndjson"\nINIT Init\nNEXT Next\nINVARIANT Emit\nCHECK_DEADLOCK FALSE\n' % sizes
     ctx.tlc("PSShapes", cfg, label="psshapes", workers=2)
     s2 = ctx.vh_json("run-shapes", os.path.join(d, "shapes.ndjson"), timeout=3000)
     pscommon.absorb(ctx, s2, "vh run-shapes (child process per shape)", "PSShapes: returns")
